@@ -17,7 +17,7 @@ CHECKS = {
         note="Trusts pbt/models.py and the line grammar in pbt/msgparse.py (taken from the documented message table); module names are identifiers.",
         ref="5 C03"),
     "C02": dict(
-        technique="grammar-enumerated AST slot paths x import forms (exhaustive to depth 2/3) + Hypothesis project trees, differential against a name-resolution reference model",
+        technique="grammar-enumerated AST slot paths x import forms (exhaustive to depth 2/3) + Hypothesis project trees, differential against a name-resolution reference model; plus a coverage-guided arm (atheris/libFuzzer driving the same strategy and oracle through Hypothesis fuzz_one_input, pytestarch instrumented)",
         text="Every statement-list position of the running interpreter's grammar, nested to depth 2 (thorough 3), times every import form is rendered into compiling source files, scanned, and the resulting import edges compared in both directions with the targets the statements name; some files are stored with a byte order mark or an encoding declaration; the paths that do not need match / except* are also scanned by a child interpreter whose ast module lacks the classes of newer Python versions; relative imports that leave the scanned root yield no edge and do not disturb the other statements.",
         note="Trusts ast.unparse/compile of the running CPython and the target-resolution rules written from the property text; imports of own ancestors are outside the claim.",
         ref="5 C02"),
@@ -32,7 +32,7 @@ CHECKS = {
         note="Trusts pbt/models.layer_analysis; layers list pairwise-unrelated modules; regex layers are $-anchored.",
         ref="5 C05"),
     "C06": dict(
-        technique="grammar-based generation of PlantUML text from a random component relation (exhaustive two-component form matrix + Hypothesis), round-trip oracle",
+        technique="grammar-based generation of PlantUML text from a random component relation (exhaustive two-component form matrix + Hypothesis), round-trip oracle; plus a coverage-guided arm (atheris/libFuzzer driving the same strategy and oracle through Hypothesis fuzz_one_input, pytestarch instrumented)",
         text="Diagrams are rendered from a known relation in every documented declaration/reference/arrow form and parsed back; the parsed components and dependencies must equal the relation; blanks / tabs around lines, arrows with and without blanks, identifiers with combining marks are part of the space; sequences of diagrams are parsed one after the other (an alias token of one is a component name of the next).",
         note="Documented subset only (one block per file, aliases on all three declaration forms; no comments, arrow labels or package blocks).",
         ref="5 C06"),
@@ -42,7 +42,7 @@ CHECKS = {
         note="Trusts models.diagram_conforms and the documented rule generation for expected failure lines.",
         ref="5 C07"),
     "C08": dict(
-        technique="exhaustive string enumeration of the glob-to-regex converter against literal glob semantics + Hypothesis trees with exclusion tuples compared with a pruned-tree reference and glob-vs-regex differential",
+        technique="exhaustive string enumeration of the glob-to-regex converter against literal glob semantics + Hypothesis trees with exclusion tuples compared with a pruned-tree reference and glob-vs-regex differential; plus a coverage-guided arm (atheris/libFuzzer driving the same strategy and oracle through Hypothesis fuzz_one_input, pytestarch instrumented)",
         text="7.4 million (pattern, subject) pairs over a metacharacter alphabet, and filtered scans of random trees (glob tuples, equivalent regexes, free-form regexes, with and without external libraries, the documented call forms exclusions=() and regex_exclusions alone, a module_path at, below or outside an excluded directory, one pattern against an empty tuple on trees with __pycache__ directories) compared with the unfiltered scan minus the excluded subtrees.",
         note="Patterns are matched against str(absolute path).",
         ref="5 C08"),
@@ -77,7 +77,7 @@ CHECKS = {
         note="draw_networkx replaced by a recorder from the harness side.",
         ref="5 C17"),
     "C10": dict(
-        technique="Hypothesis project trees x option sets + exhaustive pattern list on a fixed project; scans compared with an option-independent reference of internal/external parts (differential across configurations)",
+        technique="Hypothesis project trees x option sets + exhaustive pattern list on a fixed project; scans compared with an option-independent reference of internal/external parts (differential across configurations); plus a coverage-guided arm (atheris/libFuzzer driving the same strategy and oracle through Hypothesis fuzz_one_input, pytestarch instrumented)",
         text="Scans under {exclude, include, include+glob patterns, include+regex patterns} are compared with the default scan (internal part identical) and with the set of externals the import statements name minus those the patterns exclude; imports of ancestor packages count as internal imports; the same request is repeated with paths relative to the working directory.",
         note="Ancestors of excluded-only externals are unconstrained; real temporary directories.",
         ref="5 C10"),
@@ -130,7 +130,7 @@ def main():
             "name": "pbt",
             "path": "/verif/pbt",
             "serves_properties": sorted(CHECKS),
-            "kind_free_text": "Hypothesis 6.168 strategies/stateful machines + exhaustive small-scope enumeration over multiprocessing, explicit reference models (pbt/models.py), shrunk failures written as JSON replay files",
+            "kind_free_text": "Hypothesis 6.168 strategies/stateful machines + exhaustive small-scope enumeration over multiprocessing, a coverage-guided arm (atheris/libFuzzer over Hypothesis fuzz_one_input) for C02/C06/C08/C10, explicit reference models (pbt/models.py), shrunk failures written as JSON replay files",
         }],
         "checks": checks,
         "not_applicable": na,
